@@ -78,7 +78,8 @@ def canon(tree):
         for name, v in ds.variables.items():
             vals = np.asarray(v.values)
             entry["vars"][name] = {"dims": list(v.dims), "dtype": str(vals.dtype), "shape": list(vals.shape),
-                                   "attrs": _canon_attrs(v.attrs), "bytes": _bits(vals)}
+                                   "attrs": _canon_attrs(v.attrs), "bytes": _bits(vals),
+                                   "preferred_chunks": dict(v.encoding.get("preferred_chunksizes") or {})}
         out.append(entry)
     return out
 
